@@ -659,6 +659,7 @@ def evaluate(cases, scratch: Path, model, rng, n_random=1, tag="b", perms_fn=Non
             model_in.append(["find", a])
             model_in.append(["load", 0, a])
             model_in.append(["gaps", a])
+            model_in.append(["domain", a])
         a = abstract_case(rep["case"])
         model_in += [["paths", a], ["pyfind", a], ["pywalk", a], ["gaps", a]]
     out = iter(model(model_in))
@@ -667,6 +668,7 @@ def evaluate(cases, scratch: Path, model, rng, n_random=1, tag="b", perms_fn=Non
             p["m_find"] = next(out)
             p["m_load"] = canon_model_load(next(out))
             p["m_gaps"] = next(out)
+            p["m_domain"] = next(out)
         rep["m_paths"], rep["m_pyfind"], rep["m_pywalk"], rep["m_gaps"] = next(out), next(out), next(out), next(out)
     # CPython
     jobs = []
@@ -781,7 +783,15 @@ def direct_checks(rep):
                 continue
             if kind == "ns":
                 want = q[1] if q[0] == "ns" else top_path if (len(parts) == 1 and q[0] == "pkg") else None
-                if want is None or sorted(want) != files:
+                # the top-level portions must be CPython's; below, Griffe only records portions in which it met a module
+                # ... but every portion from which it loaded a module below this namespace must be recorded
+                needed = []
+                if want is not None:
+                    for n2, e2 in loaded.items():
+                        if n2.startswith(name + ".") and e2[2] == "file":
+                            f2 = e2[3][0]
+                            needed += [x for x in want if x[0] == f2[0] and f2[1][:len(x[1])] == x[1] and x not in needed]
+                if want is None or (sorted(want) != files if len(parts) == 1 else (not files or any(x not in want for x in files) or any(x not in files for x in needed))):
                     fails.append(("loaded-not-importable", {"order": lab, "module": name, "griffe": [cls, files], "cpython": q}))
                 elif cls != ("NP" if len(parts) == 1 else "NS"):
                     fails.append(("classification", {"order": lab, "module": name, "griffe": cls, "cpython": q}))
@@ -867,6 +877,8 @@ def classify_failure(kind, detail, gaps, loaded_cls=None):
     elif kind == "walked-not-loaded":
         if "F8" in g:
             return "C14-F8"
+        if "F10" in g:
+            return "C14-F10"
         if "nsdecl-mixed" in g:
             return "scope"
     return None
@@ -893,6 +905,8 @@ def py_gaps(case):
                     stems[st] = stems.get(st, 0) + 1
                 if n.startswith(".") and n.endswith((".pyi", ".so", ".pyc", ".pyd", ".pyo")) and "." in n[1:-1]:
                     g.add("F4")
+                if n.startswith("__init__.") and n.count(".") >= 2 and n.endswith((".so", ".pyc", ".pyd", ".pyo", ".pyi")):
+                    g.add("F9")
             if any(v > 1 for v in stems.values()):
                 g.add("F5")
         for n, x in l:
@@ -990,6 +1004,13 @@ def targeted_cases():
         mk([[["aa", D([["sub", D([["deep", D([["__init__.abi3.so", F()]])]])]])]], [["aa", D([["sub", D([["b.py", F()]])]])]]], [0, 1]),
         mk([[["aa", D([["__init__.py", F(1)], ["m.py", F()]])]], [["aa", D([["__init__.py", F(1)], ["n.py", F()]])]]], [0, 1]),   # pkgutil style
         mk([[["aa", D([["__init__.py", F(1)], ["m.py", F()]])]], [["aa", _pkg(["n.py", F()])]]], [0, 1]),                         # mixed
+        # shapes that once needed a decision in this harness (regression corpus)
+        mk([[["aa", D([["sub.py", F()], ["m", D([["m", D([["m.py", F()]])]])]])]], [["aa", D([["sub", D([["sub.pyi", F()]])]])]]], [0, 1]),   # plain module in one portion, directory in the other
+        mk([[["aa", D([["deep", D([["m.pyi", F()], ["__init__.pyi", F()]])]])]], [["aa", D([["deep", D([["m.py", F()]])]])]]], [0, 1]),          # stub-only sub-package shadows the next portion
+        mk([[["aa", D([["deep", D([["m.py", F()]])]])]], [["aa", D([["deep", D([["deep", D([])]])], ["m.py", F()]])]]], [0, 1]),                  # portion without modules
+        mk([[["aa", _pkg(["m.pyc", F()], ["m", D([["__init__.pyi", F()], ["x.py", F()]])])]]], [0]),                                               # compiled module beside a stub-only package
+        mk([[["aa.py", F()], ["aa", D([["__init__.py", F(1)], ["m.py", F()]])]]], [0]),                                                            # pkgutil declaration beside a module file
+        mk([[["aa", D([["sub", D([["sub", _pkg(["m.py", F()])], ["m", D([["m.py", F()]])]])]])]], [["aa", D([["sub", _pkg(["sub", D([["deep.py", F()]])])]])]]], [0, 1]),
         # .pth files
         mk([[["a.pth", F(0, [1, "# comment", "", "/nonexistent", 1])]], [["aa", _pkg()]]], [0]),
         mk([[["a.pth", F(0, [1])], ["aa", D([["m.py", F()]])]], [["aa", D([["n.py", F()]])]]], [0]),
@@ -1086,12 +1107,23 @@ def gen_ns_case(rng):
 # ---------------------------------------------------------------------------------------------------------------
 # The check
 # ---------------------------------------------------------------------------------------------------------------
-LEVEL_TEXT = ("Coq theorems over an executable model of finder.py/loader.py discovery (all layouts, all search-path lists, all listing orders) "
-              "against a model of CPython's PathFinder/FileFinder/pkgutil/site; the model is tied to the code by differential runs on generated "
-              "directory layouts (Griffe under wrapped os.scandir/os.listdir vs model vs CPython in a subprocess).")
-LEVEL_NOTE = ("Static mode (allow_inspection=False): compiled names are discovered but not loaded, modules whose CPython spec is a compiled file are out of scope. "
-              "Theorems about the loaded tree are proved for regular top-level packages; namespace packages over several portions are covered by the "
-              "correspondence and direct checks only. Editable-install .pth import lines, find_stubs_package and zip imports are not modelled.")
+LEVEL_TEXT = ("Coq theorems over an executable model of finder.py/loader.py discovery, for all layouts, search-path lists and listing orders: "
+              "(1) find_package = CPython's PathFinder/FileFinder precedence on source-form layouts, the three exclusions shown necessary; "
+              "(2) find_package is listing-order independent; (3) the loader's fold over any depth-sorted submodule list is characterised key by key "
+              "(a dotted name is present iff every prefix has a loadable file; value = merge of its candidates); (4) hence the static load of a regular "
+              "package of any depth is invariant under every permutation of every directory listing unless two files claim one module name; "
+              "(5) loaded => importable: every module loaded below a regular package of any depth is the file CPython's import system resolves that dotted "
+              "name to (or a stub where CPython has no regular module), modulo the shapes of findings F1/F5 and on source-form trees, with the hypotheses "
+              "in decidable form evaluated by the extracted model on every generated layout; (6) the .pth loop's fuel always suffices. "
+              "The unrestricted statements are refuted on the unchanged code by 10 machine-checked witnesses, one per finding, each with a decidable shape predicate. "
+              "The model is tied to the code by differential runs (Griffe under wrapped os.scandir/os.listdir vs model vs CPython in a subprocess).")
+LEVEL_NOTE = ("Static mode only (allow_inspection=False): compiled names are discovered but not loaded; modules whose CPython spec is a compiled file are out of scope. "
+              "NOT proved, only checked by the direct Griffe-vs-CPython evaluation on generated layouts: 'walk_packages found => loaded', classification against CPython, "
+              "namespace packages over several portions (theorems 3-5 are for regular top-level packages; the namespace machinery seen/skip and namespace-parent creation "
+              "is modelled and correspondence-checked, and is where findings F3/F8/F9/F10 live), agreement of the .pth extension with site.addsitedir outside F2/F6/F7, "
+              "load-by-name vs load-by-path (_module_name_path/_top_module_name are not modelled; compared on the implementation for top-level directories). "
+              "The order-invariance theorem excludes, through no_clash, the module-next-to-package case (foo.py and foo/__init__.py), which holds by os.walk's files-first "
+              "contract and is covered by the exhaustive clash family only. Editable-install .pth import lines, find_stubs_package and zip imports are not modelled.")
 RULE = ("targeted layouts (witness of every finding, every precedence decision); exhaustive same-name clash family (subsets of "
         "m.py/m.pyi/m.so/m.pyc/m/ with and without __init__, every permutation of the package listing); seeded random layouts over 1-3 search paths "
         "+ .pth-added paths (regular/namespace/stub/pkgutil-style/module/compiled top-level forms, nested packages to depth 4, junk, __pycache__, "
@@ -1128,6 +1160,7 @@ def process(ctx, reports, stream):
         gaps = rep["m_gaps"] if isinstance(rep["m_gaps"], list) else []
         for g in gaps:
             ctx.observe("gap_shape", g)
+        ctx.observe("importability_theorem_domain", {1: "inside", 0: "outside"}.get(first.get("m_domain"), "n/a"))
         # (C) model vs implementation, every listing order
         for p in rep["perms"]:
             ctx.count("impl_runs")
@@ -1170,11 +1203,16 @@ def report_direct(ctx, rep, gaps):
             if p["load"][0] == "ok":
                 loaded_cls = {dotted(e[0]): e[1] for e in p["load"][1]}
         pg = gaps
+        pp = None
         if isinstance(detail, dict) and "order" in detail:
             pp = next((q for q in rep["perms"] if q["label"] == detail["order"]), None)
-            if pp is not None and isinstance(pp.get("m_gaps"), list):
-                pg = pp["m_gaps"]
+            if pp is not None:
+                pg = pp["m_gaps"] if isinstance(pp.get("m_gaps"), list) else py_gaps(pp["case"])
         fid = classify_failure(kind, detail, pg, loaded_cls) if kind in FINDING_KINDS else None
+        # inside the domain of C14_loaded_importable_modulo_known nothing may be attributed to a finding
+        if kind == "loaded-not-importable" and pp is not None and pp.get("m_domain") == 1 and key_ok(detail["module"]):
+            ctx.observe("direct", "failure-inside-theorem-domain")
+            fid = None
         if kind in ("oracle-crash", "harness"):
             ctx.tie_failure("harness", kind, detail, rep["case"])
         elif fid == "scope":
@@ -1182,6 +1220,10 @@ def report_direct(ctx, rep, gaps):
         else:
             ctx.observe("direct_failure", f"{kind}:{fid}")
             ctx.property_failure({"case": rep["case"], "check": kind}, detail, finding=fid)
+
+
+def key_ok(dotted_name):
+    return all(c not in ("", "__init__", "__pycache__") for c in dotted_name.split(".")[1:])
 
 
 def check_witnesses(ctx, model):
@@ -1267,7 +1309,7 @@ def evaluate_no_model(cases, scratch, rng):
             if v[0] == "pyimport":
                 out.append([None] * len(v[2]))
             else:
-                out.append({"find": None, "load": ["none"], "paths": [None, None], "pyfind": None, "pywalk": [], "gaps": None}[v[0]])
+                out.append({"find": None, "load": ["none"], "paths": [None, None], "pyfind": None, "pywalk": [], "gaps": None, "domain": None}[v[0]])
         return out
     return evaluate(cases, scratch, fake, rng, n_random=1, tag="s")
 
